@@ -416,7 +416,7 @@ class nx_flow_mod (of.ofp_flow_mod, of.ofp_vendor_base):
             self.hard_timeout, self.priority, self._buffer_id,
             self.out_port, self.flags, match_len) = \
             _unpack("!QHHHHLHHH", raw, offset)
-    offset = self._skip(raw, offset, 6)
+    offset = _skip(raw, offset, 6)
     offset = self.match.unpack(raw, offset, match_len)
     offset,self.actions = of._unpack_actions(raw,
         length-(offset - _o), offset)
